@@ -15,6 +15,11 @@ def run(ctx):
     ctx.regen(); ctx.prove()
     n = ctx.n(3000, 40000)
     texts = gen.mutated_corpus(ctx.rng, n)
+    # sibling flow collections on one line, the first ending with an unused simple-key candidate, the second starting with an empty key: the
+    # bookkeeping of simple-key candidates per flow level decides where (and whether) a KEY token is inserted
+    SIBLINGS = ['k: [[a], [: b]]\n', 'k: {a: [b], c: {: d}}\n', '[\n  [a], [: b]\n]\n', 'k: [[a], [? x: b]]\n', '[[a], {: b}, [c], [: d]]\n', '{a: [b], c: [d], e: {: f}}\n',
+                '- [[a, b], [: c], d]\n', '[[[a]], [: b]]\n', 'k: [{a}, [: b]]\n', '[a, [b], [: c]]\n', "[['a'], [: b]]\n", '[["a"], {: b}]\n', '[[*x], [: b]]\n', 'k: [[a], [: b], [c], [: d]]\n']
+    texts = texts + SIBLINGS
     corr.scan(ctx, n, texts=texts)
     corr.parse(ctx, n, texts=texts)
     dtexts = corr.filter_reader_ok(texts) + corr.indicator_strings(ctx.n(3, 4))
